@@ -231,8 +231,9 @@ func GenerateRoutes(
 	logger.Debug("Formatting %d bytes of output code", len(result))
 	formattedOutput, err := compilation.OptimizeImportsAndFormat(result)
 	if err != nil {
-		logger.Warn("Could not format output - %v", err)
-		formattedOutput = result
+		// An unformattable result is not valid Go - writing it would hand the user a routes file that cannot compile
+		logger.Fatal("Could not format output - %v", err)
+		return fmt.Errorf("generated routes code is not valid Go - %w", err)
 	}
 
 	err = os.MkdirAll(filepath.Dir(args.OutputPath), 0755)
